@@ -237,6 +237,12 @@ pub fn explore(code: &[u8], zero_storage: bool, lim: &Limits) -> Exploration {
             let Some((pops, pushes)) = arity(op) else {
                 break Halt::Invalid;
             };
+            if (0x60..=0x7f).contains(&op) && pc + (op - 0x5f) as usize >= code.len() {
+                // a trailing PUSH whose immediate is cut short by the end of the code ends the path (the EVM zero-pads
+                // and runs off the end; the tool decodes the compiler's metadata tail as invalid by design). Whether a
+                // full stack would overflow first is not observable in either model of this instruction.
+                break Halt::EndOfCode;
+            }
             if st.stack.len() < pops {
                 break Halt::Error(ErrEvent {
                     kind: ErrKind::StackUnderflow,
